@@ -572,3 +572,53 @@ def r_hinit_order(rep, f):
                               % (got, exp, why, got, exp), c.get("sp"))
     if n < 4:
         rep.inconc("R-HINIT-ORDER", "R-HINIT-ORDER:floor", "only %d hinit call(s) with a literal order compared (expected 4)" % n)
+
+
+# ------------------------------------------------------------------------------------------ R-REJECT-CONSUMED
+def r_reject_consumed(rep, f, only=("radau", "bdf")):
+    """A solver that raises a flag where an attempt is rejected uses it to hold the next step down (`if reject { hnew =
+    min(|hnew|, |h|) }`).  The accepted step that follows has to lower it again: at the end of every iteration that
+    advanced x the flag is false.  A flag that survives caps every later step at its predecessor - the step size can only
+    shrink from the first rejection on, and the number of steps grows with the stiffness ratio.
+    The flags are the booleans assigned `true` on the rejecting branch of the acceptance test (the stepper model gives them
+    an unknown value at the loop head); the latch states come from the symbolic interpretation of one iteration."""
+    import rk
+    from protocol import SOLVERS, solve_fn
+    TRUE, FALSE, X = Poly.atom("true"), Poly.atom("false"), Poly.atom("X")
+    n_flags = 0
+    for mod, ty in SOLVERS:
+        if mod not in only:
+            continue
+        fn = solve_fn(mod, ty)
+        key = "R-REJECT-CONSUMED:%s" % fn
+        try:
+            variants = rk.analyse_variants(f, fn)
+        except rk.AnalysisError as e:
+            rep.inconc("R-REJECT-CONSUMED", key, str(e))
+            continue
+        flags, n_adv, bad = {}, 0, None
+        for tag, sx, hk in variants:
+            for k, v in (hk.head or {}).items():
+                if isinstance(v, Poly) and (v.single_atom() or "").startswith("flag~"):
+                    flags[k] = v.single_atom()[5:]
+            for L in (hk.latch or []):
+                xl = L.get(hk.xkey)
+                if not isinstance(xl, Poly) or xl == X:
+                    continue          # the iteration did not advance: a rejected attempt going round the loop
+                n_adv += 1
+                for k, nm in flags.items():
+                    if L.get(k) != FALSE and bad is None:
+                        bad = (nm, L.get(k), tag)
+        if not flags:
+            rep.ok("R-REJECT-CONSUMED", key, "no flag is raised on the rejecting branch of the acceptance test", nontrivial=False)
+            continue
+        n_flags += len(flags)
+        if bad:
+            rep.violation("R-REJECT-CONSUMED", key, "the flag `%s`, raised when an attempt is rejected, is %s at the end of an iteration that accepted its step (path variant %s): "
+                          "every later step stays capped by its predecessor, so the step size can never grow again after the first rejection"
+                          % (bad[0], "still set" if bad[1] == TRUE else "not cleared on every path (%r)" % (bad[1],), bad[2]), f.body(fn).get("sp"))
+        elif n_adv == 0:
+            rep.inconc("R-REJECT-CONSUMED", key, "no iteration that advances x was found")
+        else:
+            rep.ok("R-REJECT-CONSUMED", key, "flag(s) %s: false at the end of all %d accepting iteration(s)" % (", ".join(sorted(set(flags.values()))), n_adv))
+    return n_flags
